@@ -31,14 +31,16 @@ const EPS: f64 = f64::EPSILON;
 
 // ---- tolerances (ground metres) ------------------------------------------------------
 // Rounding model: every quantity that enters a sum contributes one unit `EPS * magnitude`;
-// K_ROUND is the number of such units allowed (calibrated: worst observed ≈ 3 units for the
-// forward model, ≈ 4 for round trips; see `worst_*_units` in the evidence).
+// K_ROUND is the number of such units allowed. Calibrated on the repaired tree (thorough tier,
+// 3.9e7 tuples): worst forward model 1.98 units, round trip 1.27, distances 3.35 (see the
+// `worst_*_units` metrics in the evidence), i.e. margin 5-8x.
 const K_ROUND: f64 = 16.0;
 // |R^T R x − x| = |r × (r × x)| ≤ |r|²|x| for R = I + [r]× : mathematical bound, 5 % slack
 const K_SECOND_ORDER: f64 = 1.05;
 // |(I+[r]×) d| = sqrt(|d|² + |r×d|²) ≤ |d| (1 + |r|²/2): mathematical bound, 5 % slack
 const K_DIST_SECOND_ORDER: f64 = 0.525;
-// Molodensky: c·δ²/(a·cos φ) + floor, abridged additionally c'·(|h|/a + f)·δ  (calibrated below)
+// Molodensky: c·δ²/(a·cos φ) + floor, abridged additionally c'·(|h|/a + f)·δ. Calibrated (6.8e6 tuples):
+// worst full error = 0.68·δ²/(a·cos φ) (10.6 m at δ ≈ 3 km), worst abridged excess = 0.54·(|h|/a + f)·δ.
 const K_MOLO: f64 = 2.0;
 const K_MOLO_ABRIDGED: f64 = 4.0;
 const MOLO_FLOOR: f64 = 1.0e-3;
